@@ -95,7 +95,9 @@ def match_case(case):
         return {'skip': 1}
     q = smarts(case['q'])
     order = list(q._atoms)
-    pp, pidx = qproj.pattern_of_query(q, order)
+    pp, pidx = qproj.pattern_of_query(q, order)       # the pattern is what the text says (projected before any copying)
+    if case.get('copy'):       # a copy of the query (and a copy of that) must ask for the same thing
+        q = q.copy().copy()
     tp, tidx = qproj.target_of(t)
     maps = [[tidx[mp[n]] for n in order] for mp in q.get_mapping(t, automorphism_filter=False)]
     return {'p': pp, 't': tp, 'scope': [], 'filter': 0, 'maps': maps, 'sub': 9, 'lt': 9, 'le': 9, 'eq': 9}
@@ -258,6 +260,10 @@ def run(ck):
         for t in (f'[{sym}]', f'C[{sym}]C'):
             for q in ('[M]', '[A]', '[M;D2]', '[M,Se]'.replace('[M,Se]', '[Se,Tc,Ge,Sn]'), f'[{sym}]'):
                 mc.append({'key': f'{q}|{t}', 'q': q, 't': t, 'thiele': False})
+    # copied queries: bond marks with the value "no" (not in a ring) must survive the copy
+    for t in ['C1CC1C2CCCCC2', 'c1ccccc1-c1ccccc1', 'C1CCC1CC', 'CC(=O)OC1CCCC1', 'C1CC2CCC1C2']:
+        for q in two[:12] + ['C-;!@C', 'C-;@C', '[C;r3]-;!@[C;r6]', '[A]-;!@[A]', '[A]=,-;!@[A]']:
+            mc.append({'key': f'{q}|{t}|copied', 'q': q, 't': t, 'thiele': False, 'copy': True})
     # aromatic spellings taken as the reader leaves them (exocyclic double bonds written before / after the ring bonds of their atom)
     for t in ['c1ccc[nH]c1=O', 'n1ccccc1=O', 'O=c1cccc[nH]1', 'c1cc(=O)cco1', 'O=c1ccocc1', 'c1cc(=S)cc[nH]1', 'Cn1ccccc1=O', 'c1ccc2c(c1)[nH]c(=O)[nH]2', 'O=c1[nH]cccn1', 'c1cnc(=O)[nH]c1']:
         for q in ('[C;a]', '[C;z4]', '[C;z2]', '[C;z4]=O', '[C;a]=[O,S]', '[C;z2]=O', '[N;a]', '[N;z4;h1]', '[O,S;z2]'):
